@@ -635,6 +635,14 @@ func apply(w *walk.Worker, ctx sdk.Context, e *graph.Edge, path []*graph.Edge, g
 			fail("C12", "panic", "vesting.import.panic", "InitGenesis of the exported state panicked: "+p, nil, p)
 			return ctx, fs, true
 		}
+		// the imported state must export to the very same genesis (ids, order, every field)
+		if p := env.Try(func() {
+			if bz3, err3 := cdc.MarshalJSON(cfevesting.ExportGenesis(ctx, k)); err3 != nil || string(bz3) != string(bz) {
+				fail("C12", "mismatch", "vesting.reexport.differs", "the genesis exported after import differs from the one that was imported", string(bz), string(bz3))
+			}
+		}); p != "" {
+			fail("C12", "panic", "vesting.reexport.panic", "ExportGenesis after import panicked: "+p, nil, p)
+		}
 	default:
 		isMsg = true
 		msg := s.buildMsg(act)
